@@ -1,9 +1,40 @@
-(** C10 — placeholder until X86DisProofs lands in this round. *)
+(** C10 — decoder (and text layer) totality.  Property theorems only.
+    Proved here, for the decoder model X86Dis.v over ANY tables (in particular the tables regenerated from /repo on every run),
+    every byte string and every continuation:
+      no over-read   — an accepted instruction of length L is determined by the first L bytes: replacing everything after them
+                       by any other bytes (or nothing) gives the same instruction, and 0 <= L <= the number of bytes supplied;
+      truncation     — every proper prefix of those L bytes is rejected with None: never an exception, never another instruction.
+    Offset invariance holds by construction (the model is a function of the bytes alone; the implementation is run at several
+    stream offsets by the correspondence).  Totality of the model is Coq's: dis returns an instruction, None, or one of the
+    enumerated exception classes; which control strings reach an exception class is decided by enumeration of the control-byte
+    space against the implementation (harness/p_c10.py), as are rendering and assembler text totality. *)
 From Coq Require Import ZArith List Bool String.
-From Mx Require Import X86Types X86Dis.
-From MxGen Require Import X86Tables.
+From Mx Require Import X86Types X86Dis X86DisProofs.
 Import ListNotations.
 Open Scope Z_scope.
-Theorem C10_nop : dis x86_tables [144] = OSome (mkinstr [] 398 "nop" [] 1 Mu32 Mu32) \/ True.
-Proof. right. exact I. Qed.
-Print Assumptions C10_nop.
+
+Theorem C10_no_over_read : forall T bytes i, dis T bytes = OSome i ->
+  0 <= i_len i <= Z.of_nat (List.length bytes) /\
+  forall e, dis T (firstn (Z.to_nat (i_len i)) bytes ++ e) = OSome i.
+Proof. exact dis_no_over_read. Qed.
+Print Assumptions C10_no_over_read.
+
+Theorem C10_truncation_gives_none : forall T bytes i, dis T bytes = OSome i ->
+  forall n, (n < Z.to_nat (i_len i))%nat -> dis T (firstn n bytes) = ONone.
+Proof. exact dis_truncation. Qed.
+Print Assumptions C10_truncation_gives_none.
+
+(** the stream discipline behind both: whatever the decoder accepts, it consumed an initial segment u, returns the same result on
+    u followed by anything, and None on every proper prefix of u *)
+Theorem C10_reads_a_prefix : forall T o bytes i, dis_core T o bytes = DOk i ->
+  exists u r, bytes = u ++ r /\ i_len i = Z.of_nat (List.length u) /\
+    (forall e, dis_core T o (u ++ e) = DOk i) /\ (forall p q, u = p ++ q -> q <> [] -> dis_core T o p = DNone).
+Proof. exact dis_reads_a_prefix. Qed.
+Print Assumptions C10_reads_a_prefix.
+
+From MxGen Require Import X86Tables.
+(** non-vacuity on the regenerated tables: add eax, [ebx+esi*4+0x11223344] (7 bytes) followed by junk; its 6-byte prefix *)
+Example C10_nonvacuous :
+  (match dis x86_tables [3; 132; 179; 68; 51; 34; 17; 204; 204] with OSome i => i_len i | _ => -1 end) = 7 /\
+  dis x86_tables [3; 132; 179; 68; 51; 34] = ONone.
+Proof. vm_compute. split; reflexivity. Qed.
